@@ -248,6 +248,79 @@ func muxScenario(conns []connSpec, stop string, lateRoute bool) *mc.Scenario {
 	return &mc.Scenario{Name: name, Body: body, Check: check, Model: sched.Deviation, NoCache: true}
 }
 
+// rerouteScenario: a routed listener is closed and its prefix registered again while the
+// multiplexer keeps running; a connection with that prefix must reach the live routed listener.
+func rerouteScenario() *mc.Scenario {
+	body := func() {
+		st := &muxState{acceptErrors: map[string]int{}}
+		sched.Cur().State()["st"] = st
+		base := &fakenet.Listener{}
+		mux := drpcmigrate.NewListenMux(base, 2)
+		ctx, cancel := context.WithCancel(context.Background())
+		vs.Go("run", func() { st.runErr = mux.Run(ctx); st.runReturned = true })
+		accept := func(who string, lis net.Listener) {
+			c, err := lis.Accept()
+			if err != nil {
+				st.acceptErrors[who]++
+				return
+			}
+			got, _ := io.ReadAll(c)
+			st.accepts = append(st.accepts, accepted{by: who, got: got})
+		}
+		first := mux.Route("AA")
+		vs.Go("closer", func() { _ = first.Close() })
+		// register the prefix again, possibly before the old registration has been reaped
+		live := ""
+		for i := 0; i < 3 && live == ""; i++ {
+			who := fmt.Sprintf("route%d", i)
+			lis := mux.Route("AA")
+			vs.Go("acc-"+who, func() { accept(who, lis) })
+			sched.Quiesce()
+			if st.acceptErrors[who] == 0 {
+				live = who // its Accept is waiting: this registration is alive
+			}
+		}
+		vs.Go("acc-default", func() { accept("default", mux.Default()) })
+		c, s := tr.New("c0", "s0", tr.Options{Cap: -1})
+		base.Push(fakenet.Conn{End: s})
+		vs.Go("client", func() { _, _ = c.Write([]byte("AAxy")); _ = c.Close() })
+		sched.Quiesce()
+		if live != "" {
+			for _, a := range st.accepts {
+				if a.by == "default" {
+					st.failf("a connection with the registered prefix was delivered to the default listener (%q) while the re-registered route %s is alive and waiting in Accept", a.got, live)
+				}
+				if a.by == live && string(a.got) != "xy" {
+					st.failf("the routed listener yielded %q, want the bytes after the prefix", a.got)
+				}
+			}
+			if len(st.accepts) == 0 && s.Closes == 0 {
+				st.failf("the connection was neither delivered nor closed; blocked=%s", wl.BlockedSummary(sched.BlockedNow()))
+			}
+		}
+		wl.Cancel(cancel)
+		sched.Quiesce()
+		if !st.runReturned {
+			st.failf("Run did not return; blocked=%s", wl.BlockedSummary(sched.BlockedNow()))
+		}
+		if lib := wl.LibBlocked(sched.BlockedNow()); len(lib) > 0 {
+			st.failf("multiplexer goroutines left behind: %s", wl.BlockedSummary(lib))
+		}
+		sched.Observef("live=%s accepts=%d", live, len(st.accepts))
+	}
+	check := func(e *sched.Exec) string {
+		if len(e.Panics) > 0 {
+			return "panic: " + e.Panics[0]
+		}
+		st := e.State()["st"].(*muxState)
+		if len(st.fails) > 0 {
+			return st.fails[0]
+		}
+		return ""
+	}
+	return &mc.Scenario{Name: "mux-reroute[close a routed listener, register its prefix again, connect]", Body: body, Check: check, Model: sched.Deviation, NoCache: true}
+}
+
 func closedCount(ends []*tr.End) int {
 	n := 0
 	for _, s := range ends {
@@ -375,6 +448,7 @@ func plans(tier string) []mc.Plan {
 		ps = append(ps, mc.Plan{Scen: muxScenario(three, stop, false), Bounds: b3, Split: len(b3) > 2})
 		ps = append(ps, mc.Plan{Scen: muxScenario([]connSpec{{"AAx", []int{1, 2}}}, stop, true), Bounds: b, Split: len(b) > 2})
 	}
+	ps = append(ps, mc.Plan{Scen: rerouteScenario(), Bounds: []int{0, 1, 2}, Split: true})
 	pats := [][]string{{}, {"a"}, {"", "b"}, {"ab", "c"}, {"a", "", "bc"}}
 	for _, p := range pats {
 		ps = append(ps, mc.Plan{Scen: headerScenario([][]string{p}), Bounds: []int{-1}})
